@@ -241,8 +241,25 @@ def r6(ctx):
     ctx.check(bool(adds) and all(bd.block_dominates(adds[0].idx, b.idx) for b in okret), "insert:always-adds", "every non-TypeMaxIsZero return is dominated by events.add", bd.where(adds[0].idx) if adds else "")
 
 
+def _removed_class(ctx):
+    """On removal the per-class counters are decremented with the class OF THE RECORD REMOVED (overflow displaces the oldest record
+    of the type, whose class may differ from the class of the event being inserted)."""
+    prog = ctx.prog
+    ib = prog.body("EventBuffer::insert")
+    isym = ctx.sym(ib)
+    n = 0
+    for c in call_sites(ib, r"ClassCounter::decrement$"):
+        n += 1
+        a = isym.call_expr(c.term)[2][1]
+        ok = mentions_call(a, r"VecList<.*>::remove_first$|::remove_first$") and mentions_field(a, "class") and a != ("param", "class")
+        ctx.check(ok, "insert:decrements-removed-class#%d" % n, "classes.decrement(%s)" % expr_str(a)[-50:], ib.where(c.idx), bad_detail="EventBuffer::insert decrements the class counter with `%s`, not with the class of the record it removed: the class totals (events-available bits) no longer match the buffer" % expr_str(a)[:60])
+    if n < 1:
+        raise AnchorError("EventBuffer::insert: ClassCounter::decrement sites")
+
+
 def r7(ctx):
     """Counter discipline: a body that removes records maintains both `total` and `written`."""
+    _removed_class(ctx)
     prog = ctx.prog
     for fn_ in ("EventBuffer::insert", "EventBuffer::clear_written"):
         bd = prog.body(fn_)
